@@ -48,6 +48,10 @@ ASSUMPTIONS = [
     "a configured stop (start) event posted by the driver at a rest point while the mode is active (any state) is a "
     "request: Mode.stop (Mode.start) must be invoked for it at least once before the next rest point",
     "active_modes order: only non-increasing priority is demanded (ties in any order)",
+    "config player plays: the trigger event of a mode's event_player posted by the driver at a rest point must make "
+    "every matching entry (plain, conditional, priority-suffixed) play exactly once while the mode is active and not "
+    "at all while it is stopped; judged only when no lifecycle event of that mode was posted and no start was "
+    "requested between the post and the next rest point",
     "stop callbacks: a callback handed to Mode.stop() that returned True belongs to the stop whose mode_<m>_stopped is "
     "posted next; it must run exactly once, not before that post, not after a later mode_<m>_stopped post, and by the "
     "first rest point after the completion callback of that mode_<m>_stopped event ran; order among several callbacks "
@@ -79,10 +83,11 @@ TIERS = {
 MIN_EVALS = {
     "quick": {"lifecycle_order": 40000, "dispatch_once": 280000, "request_guard": 22000, "progress": 13000,
               "active_list": 60000, "registry_mode": 27000, "registry_full": 5000, "request_delivered": 38000,
-              "stop_callback": 8000},
+              "stop_callback": 8000, "player_plays": 1200},
     "thorough": {"lifecycle_order": 5000000, "dispatch_once": 18000000, "request_guard": 2400000, "progress": 1600000,
                  "active_list": 6000000, "registry_mode": 1800000, "registry_full": 340000,
-                 "request_delivered": 2400000, "stop_callback": 400000},
+                 "request_delivered": 2400000, "stop_callback": 400000,
+                 "player_plays": 50000},
 }
 
 
@@ -186,6 +191,11 @@ def _gen_mode(rng, i, kind, tier):
                     ("random_event", 0.2)):
         if rng.random() < prob:
             pl[p] = True
+    # several entries of ONE player section on the same base event (they differ by condition / priority suffix only)
+    if "event" in pl and rng.random() < 0.65:
+        pl["event_multi"] = True
+    if "light" in pl and rng.random() < 0.5:
+        pl["light_multi"] = True
     md["players"] = pl
     return md
 
@@ -211,7 +221,7 @@ def _event_pool(modes):
             plain += ["shen_" + n, "shen_" + n, "shdis_" + n, "shrs_" + n, "shrst_" + n]
         p = md["players"]
         if "event" in p:
-            plain += ["ep_" + n]
+            plain += ["ep_" + n, "ep_" + n]
         if "queue_relay" in p:
             queue += ["qr_" + n, "qr_" + n]
             plain += ["qrd_" + n]
@@ -381,10 +391,15 @@ def _mode_cfg(md):
     p = md["players"]
     if "event" in p:
         cfg["event_player"] = {"ep_" + n: "epo_" + n, "mode_%s_started" % n: "epstarted_" + n}
+        if p.get("event_multi"):
+            cfg["event_player"].update({"ep_%s{value>5}" % n: "epbig_" + n, "ep_%s{value<=5}" % n: "epsmall_" + n,
+                                        "ep_%s.2" % n: "epprio_" + n})
     if "queue_relay" in p:
         cfg["queue_relay_player"] = {"qr_" + n: {"post": "qrp_" + n, "wait_for": "qrd_" + n}}
     if "light" in p:
         cfg["light_player"] = {"lp_" + n: {"l1": "red"}}
+        if p.get("light_multi"):
+            cfg["light_player"].update({"lp_%s{value>5}" % n: {"l1": "blue"}, "lp_%s.3" % n: {"l1": "green"}})
     if "show" in p:
         cfg["show_player"] = {"sp_" + n: {"c07show": {"loops": -1}}}
     if "coil" in p:
@@ -475,7 +490,7 @@ class _Monitor:
         self.seen = set()
         self.clauses = {"lifecycle_order": 0, "dispatch_once": 0, "request_guard": 0, "progress": 0, "active_list": 0,
                         "registry_mode": 0, "registry_full": 0, "request_delivered": 0, "stop_callback": 0,
-                        "no_crash": 0}
+                        "player_plays": 0, "no_crash": 0}
         self.obs = {"lifecycle_posts": 0, "start_calls": 0, "stop_calls": 0, "accepted_starts": 0, "accepted_stops": 0,
                     "rejected_requests": 0, "requests_from_lifecycle_handlers": 0, "hook_fires": 0, "held_waits": 0,
                     "requests_while_queue_held": 0, "full_cycles": 0, "snapshots": 0, "rest_points": 0,
@@ -496,6 +511,8 @@ class _Monitor:
         self.hooks_enabled = True
         self.reported_entries = set()
         self.cb_tokens = []
+        self.play_counts = {n: {"epo": 0, "epbig": 0, "epsmall": 0, "epprio": 0} for n in self.models}
+        self.pending_plays = {}
         self.done = False           # set before the machine is shut down: nothing is monitored after that
 
     # ---------------------------------------------------------------------------------------
@@ -721,6 +738,10 @@ class _Monitor:
         for n in self.models:
             for p in PHASES:
                 ev.add_handler("mode_%s_%s" % (n, p), self._make_observer(n, p), priority=10 ** 7)
+        for n in self.models:
+            if "event" in self.cfg[n]["players"]:
+                for out in ("epo", "epbig", "epsmall", "epprio"):
+                    ev.add_handler("%s_%s" % (out, n), self._make_play_counter(n, out), priority=10 ** 7)
         for hid, hk in enumerate(self.case["hooks"]):
             mi, phase, action, prio, budget, delay, other = hk
             if mi >= len(self.case["modes"]):
@@ -729,6 +750,53 @@ class _Monitor:
             on = self.case["modes"][other % len(self.case["modes"])]["name"]
             ev.add_handler("mode_%s_%s" % (n, phase), self._make_hook(hid, n, mi, phase, action, budget, delay, on),
                            priority=prio)
+
+    def _make_play_counter(self, n, out):
+        def c07_play_counter(**kwargs):
+            self.play_counts[n][out] += 1
+        return c07_play_counter
+
+    def expect_plays(self, n, value, at_rest):
+        """Driver posts the trigger event of mode n's event_player (judged if every post of the window was at rest)."""
+        if n not in self.models or "event" not in self.cfg[n]["players"]:
+            return
+        M = self.models[n]
+        pend = self.pending_plays.get(n)
+        if pend is None:
+            if not at_rest:
+                return      # events are in flight: the mode's state at dispatch is not known; counts start later
+            pend = self.pending_plays[n] = {"posts": [], "counts": dict(self.play_counts[n]), "dirty": False,
+                                            "lifecycle": sum(M.posted.values()), "calls": M.start_calls}
+        pend["posts"].append((value, M.state))
+
+    def check_plays(self):
+        """While its mode is active every entry of the player plays exactly once per matching post; while the mode is
+        stopped it does not play.  Judged only if the mode's lifecycle did not move between post and rest point."""
+        pending, self.pending_plays = self.pending_plays, {}
+        for n, pend in pending.items():
+            M = self.models[n]
+            states = set(st for _v, st in pend["posts"])
+            if sum(M.posted.values()) != pend["lifecycle"] or M.start_calls != pend["calls"] or len(states) != 1:
+                continue        # the mode's lifecycle moved inside the window
+            state = states.pop()
+            if state not in ("active", "stopped"):
+                continue
+            multi = bool(self.cfg[n]["players"].get("event_multi"))
+            exp = {"epo": 0, "epbig": 0, "epsmall": 0, "epprio": 0}
+            if state == "active":
+                for v, _st in pend["posts"]:
+                    exp["epo"] += 1
+                    if multi:
+                        exp["epprio"] += 1
+                        exp["epbig" if v > 5 else "epsmall"] += 1
+            got = {k: self.play_counts[n][k] - pend["counts"][k] for k in exp}
+            self.clauses["player_plays"] += len(exp)
+            if got != exp:
+                more = any(got[k] > exp[k] for k in exp)
+                self.V("player_plays", "config_player_entry_played_%s_than_once_per_post" % ("more" if more else "less")
+                       if state == "active" else "config_player_entry_played_while_mode_stopped",
+                       mode=n, state=state, posts=pend["posts"], expected=exp, got=got, cycles=M.cycles,
+                       handlers_on_trigger=len(self.m.events.registered_handlers.get("ep_" + n, ())))
 
     def _make_observer(self, n, p):
         def c07_observer(**kwargs):
@@ -844,6 +912,7 @@ class _Monitor:
                     self.V("dispatch_once", "lifecycle_event_not_dispatched_exactly_once", mode=n, phase=p,
                            posted=M.posted[p], dispatched=M.dispatched[p])
         self.check_stop_callbacks()
+        self.check_plays()
         # requests by event
         pend, self.pending_delivery = self.pending_delivery, []
         for what, n, event, before, ctx in pend:
@@ -1059,7 +1128,13 @@ def run_case(case):
                         mon.expect_delivery(op[1])
                     if any(op[1].startswith(x) for x in ("rs_", "rst_", "arst_")):
                         mon.obs["delayed_control_events"] += 1
-                    m.events.post(op[1])
+                    if op[1][:3] in ("ep_", "lp_"):
+                        val = (7 * i + 3) % 11
+                        if op[1][:3] == "ep_":
+                            mon.expect_plays(op[1][3:], val, mon.quiescent())
+                        m.events.post(op[1], value=val)
+                    else:
+                        m.events.post(op[1])
                 elif k == "qpost":
                     shape.append("q")
                     m.events.post_queue(op[1], callback=lambda **kwargs: None)
